@@ -308,9 +308,11 @@ func clauseHasProp(ct *FuncContract, p string) bool {
 				return true
 			}
 		}
-		for _, c := range l.BackEdge {
-			if hasProp(c.Props, p) {
-				return true
+		for _, cs := range [][]Clause{l.BackEdge, l.Init, l.Exit} {
+			for _, c := range cs {
+				if hasProp(c.Props, p) {
+					return true
+				}
 			}
 		}
 	}
